@@ -49,6 +49,19 @@ fn pratt<'a>() -> impl Parser<'a, &'a str, Out, Ex<'a>> + Clone + Send + Sync {
     .map(|v| vec![v])
 }
 
+/// A second Pratt table of another shape: no prefix operators, other powers, a subtraction.
+fn pratt_b<'a>() -> impl Parser<'a, &'a str, Out, Ex<'a>> + Clone + Send + Sync {
+    let atom = text::int(10).map(|s: &str| num(s));
+    atom.pratt((
+        infix(left(2), just('+'), |l: i64, _, r: i64, _| l + r),
+        infix(left(2), just('-'), |l: i64, _, r: i64, _| l - r),
+        infix(left(4), just('*'), |l: i64, _, r: i64, _| l * r),
+        infix(right(6), just('^'), |l: i64, _, r: i64, _| l.wrapping_pow(r as u32 % 5)),
+        postfix(7, just('!'), |l: i64, _, _| l + 1000),
+    ))
+    .map(|v| vec![v])
+}
+
 fn valid<'a>() -> impl Parser<'a, &'a str, Out, Ex<'a>> + Clone + Send + Sync {
     let byte = text::int(10).validate(|s: &str, e, em| {
         let n = num(s);
@@ -187,6 +200,45 @@ fn main() {
                         let want = if check { &refs[z][i].1 } else { &refs[z][i].0 };
                         assert_eq!(&got, want, "C13: thread {} zoo {} input {:?} check={} differs from sequential use", t, z, pool[i], check);
                         n += 1;
+                    }
+                    n
+                })
+            })
+            .collect();
+        for h in hs {
+            ops += h.join().expect("client thread panicked");
+        }
+    }
+    // Two DIFFERENT shared Pratt parsers used alternately by the same threads, with many other tables
+    // constructed in between (whatever identifies a table — an id, an address, a hash — then has the
+    // chance to collide modulo small powers of two).
+    {
+        let a: Shared<'static> = make(1);
+        let mut others: Vec<Shared<'static>> = Vec::new();
+        for gap in [15usize, 31, 63, 127] {
+            for _ in 0..gap {
+                drop(pratt());
+            }
+            others.push(Arc::new(pratt_b()));
+        }
+        let pool_a = POOLS[1];
+        let pool_b: &[&str] = &["1+2*3!", "2^3^2-1", "7!!", "1-2-3"];
+        let fresh_b: Shared<'static> = Arc::new(pratt_b());
+        let want_a: Vec<String> = pool_a.iter().map(|s| show(&make(1), s, false)).collect();
+        let want_b: Vec<String> = pool_b.iter().map(|s| show(&fresh_b, s, false)).collect();
+        let (want_a, want_b, others) = (Arc::new(want_a), Arc::new(want_b), Arc::new(others));
+        let hs: Vec<_> = (0..threads)
+            .map(|t| {
+                let (a, others, want_a, want_b) = (a.clone(), others.clone(), want_a.clone(), want_b.clone());
+                std::thread::spawn(move || {
+                    let mut n = 0u64;
+                    for k in 0..4usize {
+                        let i = (k + t) % pool_a.len();
+                        assert_eq!(&show(&a, pool_a[i], false), &want_a[i], "C13: thread {} pratt A input {:?} differs from sequential use", t, pool_a[i]);
+                        let b = &others[(k + t) % others.len()];
+                        let j = (k * 3 + t) % pool_b.len();
+                        assert_eq!(&show(b, pool_b[j], false), &want_b[j], "C13: thread {} pratt B input {:?} differs from sequential use", t, pool_b[j]);
+                        n += 2;
                     }
                     n
                 })
